@@ -118,6 +118,8 @@ def judge(m, r=None):
     bad = []
     scale = max(float(np.max(np.abs(C))), 1e-300)
     lo = c04.tol_of(m, 1e-6 if m.get('adaptive') else RT)
+    for sym, what in (r.get('flags', []) if isinstance(r, dict) else []):
+        bad.append((sym, what))
     if C.shape[:2] != (M, M):
         return [('shape', 'matrix shape %s for %d channels' % (C.shape, M))]
     # Hermitian
